@@ -81,6 +81,7 @@ type Options struct {
 	Pyflakes   string   `json:"pyflakes,omitempty"`
 	ConfigFile string   `json:"config_file,omitempty"`
 	Verbose    bool     `json:"verbose,omitempty"`
+	WorkingDir string   `json:"working_dir,omitempty"` // LinterOptions.WorkingDir (may differ from the process cwd)
 }
 
 // World is everything outside the code under test for one run.
@@ -219,6 +220,7 @@ func lintOnce(w *World, res *LintResult, shared *sharedLinter) {
 			Pyflakes:       w.Opts.Pyflakes,
 			ConfigFile:     w.Opts.ConfigFile,
 			Verbose:        w.Opts.Verbose,
+			WorkingDir:     w.Opts.WorkingDir,
 			LogWriter:      &errb,
 		}
 		var l *actionlint.Linter
